@@ -94,7 +94,8 @@ class RoundTrip(Sub):
     def oracle(self, case, rec):
         lt, dtype, layout = case["ltype"], case["dtype"], case["layout"]
         eps = tu.EPS[dtype]
-        X = tu.lie(lt, case["items"], dtype, shape=case["lshape"])
+        X = tu.lie(lt, case["items"], dtype, shape=case["lshape"], view=tu.view_of(case, "X"))
+        rec.label("layout:" + ("contiguous" if X.tensor().is_contiguous() else "noncontiguous_operand"))
         M = X.matrix()
         Min = _layout(_to4(M), layout).contiguous()
         Min0 = Min.clone()
